@@ -20,6 +20,7 @@ EXPLANATION = (
     "NOT decided: the drift-correction populations (emulator physics). OWN/FLOW (added): _PhaseDriftParams is built only where a block is opened and in _get_last_eom_pulse_phase_drift; disable_eom_mode corrects the drift from the last EOM pulse to the end of the block; ChannelSamples.modulate extends the mask of every EOM block by the fall time inside the loop over the blocks; the drift window of enable/modify starts where the buffer starts."
     " Round 5 (added): enable_eom_mode's drift starts at the scheduled buffer slot; both setpoint arrays are copied; a block end is tested with `is None` (tf == 0 is a closed block); controlled beams are distinct; the end-buffer test requires a non-empty slot; modify_eom_setpoint evaluates the old drift where the new drift starts."
     " Round 6 (added after the fifth independent round of breaking changes): the drift start passed by enable_eom_mode is clamped at 0 (max(0, ...)); the EOM tail rule of C06 (last slot's targets) is reported there."
+    ' Round 7 (added after the sixth, smaller round of breaking changes): in _ChannelSchedule.get_samples the start buffer written to eom_start_buffers[k] is recognised with eom_intervals_ti[k] and eom_blocks[k].detuning_off (one index).'
 )
 ASSUMPTIONS = ["formulas, guards and sibling code are matched on the symbolic normal form (pstatic/sym.py): temporaries, private helpers, conditional forms and operand order do not matter; state mutation between two reads of one access path is not modelled (orderings are taken from the program order of the logged calls)"]
 
